@@ -194,8 +194,6 @@ class C09(PropBase):
         if ev.get("noop"):
             return
         st.label("deliver:%s" % ("ok" if ev["ok"] else "err"))
-        if ev.get("deferred_termination"):
-            return  # tolerated repair of K1: the ProtocolError comes with the next receive
         lights = ev["lights"] or []
         # classify what was completed by this delivery (cells + reach), walking a model copy
         walk = pre.clone()
